@@ -13,7 +13,7 @@
 // limitations under the License.
 
 use crate::cache::{FileObjectSource, PreprocessorCacheModeConfig, Storage};
-use crate::compiler::preprocessor_cache::preprocessor_cache_entry_hash_key;
+use crate::compiler::preprocessor_cache::{include_file_digest, preprocessor_cache_entry_hash_key};
 use crate::compiler::{
     Cacheable, ColorMode, Compilation, CompileCommand, Compiler, CompilerArguments, CompilerHasher,
     CompilerKind, HashResult, Language,
@@ -1115,6 +1115,18 @@ fn remember_include_file(
         debug!("Found __TIME__ in header file {}", path.display());
         return Ok(false);
     }
+
+    // Also covers what __DATE__ and __TIMESTAMP__ expand to, if they are mentioned.
+    let file_digest = match include_file_digest(file_digest, &finder, meta.modified) {
+        Some(file_digest) => file_digest,
+        None => {
+            debug!(
+                "Couldn't get mtime of {} which contains __TIMESTAMP__",
+                path.display()
+            );
+            return Ok(false);
+        }
+    };
 
     included_files.insert(path, file_digest);
 
